@@ -47,6 +47,10 @@ const indepLib = `  dA:
   sV:
     vars: {D: {sh: 'echo {{.V}}'}}
     cmds: ['printf "{{.K}}|sV|{{.D}}\\n"']
+  dF:
+    cmds:
+      - defer: 'printf "{{.K}}|dF|deferred|{{.V}}\\n"'
+      - 'printf "{{.K}}|dF|work|{{.V}}\\n"'
   mR:
     cmds:
       - for: {matrix: {X: {ref: .L}}}
@@ -60,7 +64,7 @@ const indepLib = `  dA:
 func callYAML(c iCall, k string) string {
 	vars := "K: " + k
 	switch c.T {
-	case "cV", "sV":
+	case "cV", "sV", "dF":
 		vars += ", V: " + c.A
 	case "mR":
 		vars += ", L: {ref: .L" + strings.TrimPrefix(c.A, "l") + "}"
